@@ -8,6 +8,25 @@ HOOK_COMMITS = ["611dceb", "dfbb501", "8c2e05d", "bdc40f2"]
 NOT_CLAIMED = {}
 
 CHECKS = {
+    "C19": {
+        "engines": NATIVE,
+        "level": "exploration",
+        "rule": "programs: statement snippets, composed corpus programs (as scripts and as modules), failing programs, 8 module graphs "
+                "(chains, diamond with re-exports / export * / export * as, default + namespace imports, live bindings, missing / "
+                "throwing / syntactically broken dependencies), 8 order programs with a scripted host; each driven through prepare+step, "
+                "eval, step with interleaved read-only host calls, C API tsrun_step loop and C API tsrun_run, comparing the full "
+                "conversation trace (import requests, order ids and payloads, result, export table, exported-function calls, console). "
+                "8 module texts are compared across the roles main / provided dependency / internal source module. Every comparison is "
+                "a distinct (program, entry point) or (module, role) pair",
+        "floor": {"quick": 800, "thorough": 2000},
+        "technique": "runtime monitoring: pairwise trace-equality oracle across entry points and module roles with one scripted host, "
+                     "including the C API called through extern \"C\"",
+        "level_text": "All entry points must produce the same trace as the prepare+step loop for the same program and host script; a "
+                      "module must expose the same export names, values and live-binding behaviour in each role.",
+        "level_note": "all engines run at the default GC threshold (the C API cannot change it); programs that exceed the step budget "
+                      "under prepare+step are not handed to tsrun_run (it has no budget) and count as inconclusive",
+        "assumptions": ["the scripted host (harness/src/engine.rs) behaves identically over the Rust and the C API"],
+    },
     "C01": {
         "engines": NATIVE,
         "golden": "C01A.tsv",
